@@ -191,6 +191,21 @@ CLAIMS['C06'] = (
     'trusted: refninja; the documented Ninja-only colour flag is removed before comparing',
     'DESIGN.md §6 C06')
 
+CLAIMS['C04'] = (
+    'exploration',
+    'bounded exhaustive enumeration of path-component names x roles x backends, observed on disk through the real make / refninja; run-time feasibility witnesses from hand-written reference Makefiles',
+    'Every name of the shapes c, xc, cx, xcy for each printable ASCII character except the separators (thorough: plus '
+    'every pair of special characters in the middle) is used as source file, source directory, named output, output '
+    'sub-directory, copied file and find_files directory on both backends. Observed per (name, role): the step creates '
+    'the file at exactly the expected path and nowhere else, a second build runs nothing, modifying the prerequisite '
+    're-makes exactly the consuming step, clean removes the outputs only, adding a file to a walked directory '
+    'regenerates. A (name, role) pair is demanded of bfg9000 only if a hand-written reference Makefile can express '
+    'the name in every slot the role uses (search over raw/backslash encodings per special character with decoy '
+    'siblings, executed by the real make); for Ninja if the name has no `|` (no escape exists in the manifest language).',
+    'known findings (Make: single quote, glob characters and | in target/directory positions, leading ~) are listed '
+    'with exact keys; a weak reference search costs completeness only',
+    'DESIGN.md §6 C04')
+
 # --- more claims are appended above this line ---
 NOT_YET = 'check not built yet in this session (see DESIGN.md §10 build order); not claimed until it is'
 NOT_APPLICABLE = {}
